@@ -372,7 +372,7 @@ func checkMain(args []string) int {
 		if strings.HasSuffix(name, "*") {
 			continue
 		}
-		if !have[name] && isNamedKind(name) {
+		if !have[name] && isNamedKind(name) && !*writeLock {
 			missing++
 			undecided = append(undecided, "locked obligation no longer generated: "+name)
 		}
